@@ -223,6 +223,22 @@ impl Monitor for DumpMonitor {
     }
 }
 
+/// A session on a synthesised foreign image (self-checked by the independent parser;
+/// a failing self-check means "no foreign start", never a verdict).
+pub fn foreign_start(rng: &mut Rng) -> Option<(Session, Version)> {
+    let layout = crate::synth::Layout::random(rng);
+    let n = *rng.pick(&[3usize, 10, 30]);
+    let model = crate::synth::random_model(rng, n, 9000);
+    let (bytes, _f) = crate::synth::synthesize(&model, &layout, rng);
+    if crate::props::foreign::self_check(&model, &bytes).is_err() {
+        return None;
+    }
+    let mode = if rng.chance(1, 2) { Mode::Strict } else { Mode::Permissive };
+    let sess = Session::open_bytes(bytes, mode, None, model).ok()?;
+    let v = if layout.version == 3 { Version::V3 } else { Version::V4 };
+    Some((sess, v))
+}
+
 pub fn run_c01(ctx: &Ctx, rep: &mut Report) {
     let mut i = 0;
     while let Some(case) = ctx.next_case(&mut i) {
@@ -237,7 +253,19 @@ pub fn run_c01(ctx: &Ctx, rep: &mut Report) {
         if rng.chance(1, 3) {
             cfg.max_size = 5000;
         }
-        let info = drive(ctx, case, rng, rep, DriveOpts { version, bufsize: None, max_steps, cfg, handle_mix_pct: 0, max_handles: 0, start: None }, &mut DumpMonitor);
+        // a quarter of the histories start from a synthesised foreign layout (red-black
+        // sibling trees, permuted sectors, directory gaps) instead of a fresh file
+        let mut start = None;
+        let mut version = version;
+        if rng.chance(1, 4) {
+            if let Some((s, v)) = foreign_start(rng) {
+                start = Some(s);
+                version = v;
+                cfg.names = crate::synth::SYNTH_NAMES;
+                rep.count("start.foreign_layout");
+            }
+        }
+        let info = drive(ctx, case, rng, rep, DriveOpts { version, bufsize: None, max_steps, cfg, handle_mix_pct: 0, max_handles: 0, start }, &mut DumpMonitor);
         if info.saw_removal && info.saw_large {
             rep.nontrivial(info.hash);
         }
